@@ -323,6 +323,9 @@ def check_C02(run, replay=None):
     F.std_scenarios(env, rng, n, prof, nops=(20, 60))
     corpus(env, rng, {"e5-name", "zero-cdate"})
     grow_scripts(env, rng, max(n // 10, 4), big=True)
+    # volumes that fill up during a write: what was accepted before DiskFull must be on the medium after close
+    full = fsgen.profile(weights=dict(write=16, open=10, close=8, flush=3, delete=2, mkdir=1, read=1, seek=1, bad=0, remount=0, io=1), quiesce=True)
+    F.std_scenarios(env, rng, max(n // 6, 6), full, nops=(12, 30), img_kw=dict(free_left=3), per_image=3)
     env.run_all(writes=True)
     bad = 0
     for sc in env.scripts:
@@ -481,6 +484,8 @@ def check_C05(run, replay=None):
         cycles = 3 if run.tier == "quick" else 12
         for c in range(cycles):
             ops.append("open $r %s RWCT -> $f%d" % (fsgen.hx("FILL.DAT"), c))
+            if j % 3 == 2:
+                ops.append("write $f%d %d %d" % (c, bpc * (k + 2), c * 7))     # one write that overruns the volume
             for w in range(k + 2):
                 ops.append("write $f%d %d %d" % (c, bpc, c * 7 + w))
             ops += ["close $f%d" % c, "delete $r %s" % fsgen.hx("FILL.DAT")]
@@ -496,16 +501,13 @@ def check_C05(run, replay=None):
             g0 = fatck.mount(sc["meta"]["dev0"], sc["meta"]["slot"])
             k = g0.N - len(fatck.used_clusters(sc["meta"]["dev0"], g0)); bpc = sc["meta"]["spc"] * 512
             accepted = []
-            cur = None
+            last_len = {}
             for i, op in enumerate(tr.ops):
-                if op[0] == "open":
-                    cur = 0
-                elif op[0] == "write" and tr.ok(i):
-                    cur += int(op[2])
-                elif op[0] == "write" and tr.st[i].get(op[1]) and tr.st[i][op[1]][0] != "err":
-                    pass
-                elif op[0] == "close":
-                    accepted.append(cur)
+                if op[0] == "close" and op[1] in last_len:
+                    accepted.append(last_len[op[1]])       # bytes the volume accepted for this file (partial writes included)
+                for sl, stt in tr.st[i].items():
+                    if stt[0] != "err":
+                        last_len[sl] = int(stt[0])
             if accepted and any(a != accepted[0] for a in accepted):
                 out.append("fill/delete/refill: accepted bytes per cycle %s are not constant" % accepted)
             if accepted and accepted[0] not in (k * bpc, max(k - 1, 0) * bpc):   # k-1: the directory itself had to grow by a cluster
@@ -850,7 +852,7 @@ def c08_oracle(sc):
             inuse = any(v == arg for v in dir_vol.values()) or any(v == arg for v in file_vol.values())
             if arg in live["v"]:
                 if inuse and e != "VolumeStillInUse": out.append("op %d: close_volume while in use returned %s" % (k, r[:2]))
-                if not inuse and not okk: out.append("op %d: close_volume of an idle volume returned %s" % (k, e))
+                if not inuse and not okk and not tr.faulted(k): out.append("op %d: close_volume of an idle volume returned %s" % (k, e))
                 if okk: live["v"].discard(arg); vol_idx.pop(arg, None)
             elif not (e == "BadHandle" and not tr.dev[k]) and not (e == "VolumeStillInUse" and inuse):
                 out.append("op %d: close_volume on a stale handle returned %s (device calls %d)" % (k, r[:2], len(tr.dev[k])))
@@ -1040,15 +1042,24 @@ def check_C11(run, replay=None):
         return do_replay(run, env, replay)
     rng = V.SplitMix(run.seed)
     n = tier_n(run, 24, 200)
-    prof = fsgen.profile(weights=dict(write=8, open=10, close=5, flush=3, delete=4, mkdir=4, read=6, seek=2, iter=6, find=5, opendir=4, label=1, bad=0, remount=0, io=0, closevol=1))
-    F.std_scenarios(env, rng, n, prof, nops=(12, 24), img_kw=dict(big_dir=True), want=["f16_min", "f16_spc2", "f32_min", "f32_root5", "f16_exact"], per_image=2)
+    prof = fsgen.profile(weights=dict(write=8, open=10, close=5, flush=3, delete=4, mkdir=4, read=6, seek=2, iter=6, find=5, opendir=4, label=4, hasopen=2, bad=0, remount=0, io=0, closevol=1))
+    F.std_scenarios(env, rng, n // 2, prof, nops=(12, 24), img_kw=dict(big_dir=True), want=["f16_min", "f16_spc2", "f32_min", "f32_root5", "f16_exact"], per_image=2)
+    F.std_scenarios(env, rng, n - n // 2, prof, nops=(12, 24), img_kw=dict(big_dir=True, blank_label=True), want=["f16_min", "f16_spc2", "f32_min", "f32_root5"], per_image=2)
+    # directed: the volume-label query has to walk the root directory when the boot-sector label is blank
+    for j, gname in enumerate(["f16_min", "f32_min"]):
+        geo = fsgen.geometry(rng, None, [gname])
+        img, meta = fsgen.build_image(rng, geo, populate=1, blank_label=True, big_dir=False)
+        path, dev = env.new_image(img, "label%d" % j)
+        meta = dict(meta); meta["dev0"] = dev
+        ops = ["openvol %d -> $v" % meta["slot"], "label $v", "hasopen", "label $v", "openroot $v -> $r", "iter $r", "closedir $r", "hasopen", "closevol $v", "hasopen"]
+        env.add_script("label%d" % j, path, (1, 4, 4), ops, 5000, (), meta)
     base = list(env.scripts)
     env.run_all(scripts=base)
     # a failure injected at every single device-call index (quick: strided), plus random multi-fault schedules
     extra = []
     for sc in base:
         ncalls = sum(1 for l in sc["impl"] if l.startswith("DEV "))
-        idxs = list(range(ncalls)) if run.tier == "thorough" else sorted({rng.below(max(ncalls, 1)) for _ in range(14)})
+        idxs = list(range(ncalls)) if (run.tier == "thorough" or sc["name"].startswith("label")) else sorted({rng.below(max(ncalls, 1)) for _ in range(14)})
         for i in idxs:
             extra.append(env.add_script("%s-f%d" % (sc["name"], i), sc["img"], sc["limits"], sc["ops"], sc["id_offset"], [i], sc["meta"]))
         for m in range(2):
@@ -1072,6 +1083,9 @@ def check_C11(run, replay=None):
                     out.append("op %d (%s): a device call failed during the call but it returned %s" % (k, " ".join(op[:3]), " ".join(r[:3])))
                 elif r[0] == "panic":
                     out.append("op %d (%s): a device call failed and the call panicked" % (k, " ".join(op[:3])))
+        if not out:
+            # never wedged: the bookkeeping of handles must still be truthful after faulted calls
+            out += [p for p in c08_oracle(sc) if "open_root_dir accepted" not in p]
         if not out:
             dev = final_image(sc)
             g = fatck.mount(dev, sc["meta"]["slot"])
@@ -1145,6 +1159,10 @@ def check_C16(run, replay=None):
                 op = tr.ops[k]
                 if r[0] == "panic":
                     out.append("op %d (%s) panicked (information sector count %d hint %d)" % (k, " ".join(op[:3]), cnt0, nxt0)); break
+                if r[0] == "err" and r[1] in ("DiskFull", "NotEnoughSpace") and op[0] in ("write", "iowrite", "mkdir"):
+                    free_now = g.N - len(fatck.used_clusters(dev, g))
+                    if free_now >= 2:
+                        out.append("op %d (%s) failed with %s although %d FAT entries are free (information sector count %d hint %d at mount)" % (k, " ".join(op[:3]), r[1], free_now, cnt0, nxt0))
                 if op[0] == "openvol" and r[0] == "ok" and int(op[1]) == sc["meta"]["slot"]:
                     c, _ = fatck.info_record(dev, g)
                     mounted = g.N - len(fatck.used_clusters(dev, g)); mounted_cnt = c
